@@ -18,6 +18,9 @@ C06_QUICK = [
   X(2, [0, 2], extra=[1], REGMODE=1, SMAP='{5,2}'),   # sparse, permuted state numbers of the operand
   X(2, [0, 1], GLOBAL_ALPHA=None),                # the library's global alphabet, as `vata cmpl` uses it
   X(1, [0, 0, 1, 1, 2, 2, 2], extra=[1]),         # 8 bits, one state, 7 used + 1 unused symbols
+  # third red-team round: the complemented object received A by copy assignment / copy construction / move assignment (VIA 1/2/3);
+  # for 1 and 3 the target was associated with another alphabet {x:0,y:0,z:1} before; sparse state numbers {0,2} (gapped)
+  X(2, [0, 1], VIA=1), X(2, [0, 0, 1], VIA=3), X(2, [0, 1], VIA=2, extra=[0, 1]), X(2, [0, 1], SMAP='{0,2}'), X(2, [0, 2], SMAP='{3,0}'),
 ]
 C06_THOROUGH = C06_QUICK + [
   # X(2, [0, 1, 2]) (16 bits) is NOT included: > 10 GB of terms, and with 32 GB still undecided after 2800 s (engine cost)
@@ -30,7 +33,7 @@ CHECKS = {
  'C06': {
   'level': 'model_checking',
   'explanation': 'ExplicitTreeAut::Complement() executed symbolically on every automaton A whose rules are drawn from the rule universe of the configuration, with an OnTheFlyAlphabet that holds the universe symbols plus extra registered-but-unused symbols (different registration orders / symbol numberings / state numberings per configuration, and the global alphabet as `vata cmpl` uses it). The result is decoded by iterating it; the oracle computes bottom-up ALL reachable pairs (set of A-states accepting t, set of C-states accepting t) over all trees t over the alphabet and requires that exactly one side accepts in every reachable pair (disjointness and universality of the union), that every rule of the result uses an alphabet symbol with its rank, and that the operand is unchanged.',
-  'bounds': {'quick': 'A over <=3 states, ranks <=2: 2 x {a/0,f/1}, 2 x {a/0,f/1}+unused{x/0,y/1}, 2 x {a/0,b/0,f/1}, 3 x {a/0,b/0} (nullary only), 2 x {a/0,g/2}, 2 x {a/0,g/2}+unused{x/1} with sparse state numbers, 1 x {a/0,b/0,f/1,h/1,g/2,k/2,m/2}+unused{x/1}; all rule subsets and final sets (8..12 free bits per query)',
+  'bounds': {'quick': 'A over <=3 states, ranks <=2: 2 x {a/0,f/1}, 2 x {a/0,f/1}+unused{x/0,y/1}, 2 x {a/0,b/0,f/1}, 3 x {a/0,b/0} (nullary only), 2 x {a/0,g/2}, 2 x {a/0,g/2}+unused{x/1} with sparse state numbers, 1 x {a/0,b/0,f/1,h/1,g/2,k/2,m/2}+unused{x/1}; all rule subsets and final sets (8..12 free bits per query); third red-team round: the complemented object is a copy-assigned / copy-constructed / move-assigned copy of A (the assignment targets were associated with another alphabet before), gapped state numbers {0,2} and {3,0}',
              'thorough': 'as quick plus 3 x {a/0,f/1} (15 bits), 2 x {a/0,b/0,g/2} (14 bits; once with an unused nullary symbol, once with reversed symbol numbering and swapped state numbers)'},
   'outside': 'more than 3 states (more than 2 with a binary symbol), a unary AND a binary symbol together on 2 states (16 bits: undecided by the engine within 32 GB / 2800 s), rank > 2, more than 8 symbols, alphabets that are not OnTheFlyAlphabet (NotImplementedException by design), automata that use symbols missing from the alphabet or with a rank other than the registered one (precondition of the statement), builds with assertions enabled (-UNDEBUG)',
   'assumptions': ['the result has at most 2^|Q_A| distinct states, whatever their numbers (decoded through a slot table of the distinct state numbers; checked: CHECK id 2)', 'the oracle fixpoint is cut after ROUNDS rounds; convergence is itself a checked condition (CHECK id 4)'],
